@@ -319,6 +319,25 @@ fn main() {
             }
         }
     }
+    // characters at which extended and legacy grapheme clusters differ (a spacing combining mark, a
+    // prepended character, a virama conjunct), with whitespace and a plain letter
+    {
+        const CLUSTER_ALPHA: [&str; 7] = ["\u{915}", "\u{93f}", "\u{94d}", "\u{600}", "\u{e33}", " ", "a"];
+        let texts = tu_verif::enumerate::strings(&CLUSTER_ALPHA, run.pick(4, 5));
+        run.bounds.insert("cluster_prefix_phase".into(), json!(format!("every string of at most {} symbols over [U+0915, U+093F, U+094D, U+0600, U+0E33, space, a] ({} strings) x use_graphemes", run.pick(4, 5), texts.len())));
+        let base = units + (patterns.len() + tu_verif::enumerate::threshold_lengths(run.pick(10, 12)).len()) as u64;
+        for (k, part) in texts.chunks(256).enumerate() {
+            if !run.unit(base + k as u64) {
+                continue;
+            }
+            for t in part {
+                for g in [false, true] {
+                    check(&mut run, t, g);
+                }
+            }
+            run.tick();
+        }
+    }
     for (j, pat) in patterns.iter().enumerate() {
         if !run.unit(units + j as u64) {
             continue;
